@@ -202,14 +202,24 @@ def run(repo, tier):
     # ------------------------------------------------------------------ R15.4 tables + flush keyed exponent
     check_mpmath_tables(r, repo, rule="R15.4")
     mf = repo.func(REL, "mpf2float")
-    zexp = [st for st in ast.walk(mf) if isinstance(st, ast.Assign) and dotted(st.targets[0]) == "zexp"]
-    if len(zexp) != 1 or not isinstance(zexp[0].value, ast.IfExp):
-        raise AnalysisError("mpf2float: `zexp = A if flush_subnormals else B` not found")
-    ie = zexp[0].value
+    # the zero threshold: the conditional that chooses between the float_minexp and float_subexp tables
+    zsel = [x for x in ast.walk(mf) if isinstance(x, ast.IfExp) and "float_minexp" in norm_src(x) and "float_subexp" in norm_src(x)]
+    if len(zsel) != 1:
+        raise AnalysisError("mpf2float: the conditional `float_minexp[...] if flush_subnormals else float_subexp[...]` not found")
+    ie = zsel[0]
     ok = norm_src(ie.test) == "flush_subnormals" and "float_minexp" in norm_src(ie.body) and "float_subexp" in norm_src(ie.orelse)
     r.ob("R15.4", f"{REL}::mpf2float zero threshold", ok, f"`{norm_src(ie)}`: flushing must cut at float_minexp (smallest normal), otherwise at float_subexp", loc(REL, ie))
     # R15.5: returns under the two range tests
     rtests = check_range_tests_after_rounding(r, repo, mf)
+    # the sign is the first component of the (sign, man, exp, bc) tuple of the mpf
+    sign_names = set()
+    for st in ast.walk(mf):
+        if isinstance(st, ast.Assign) and isinstance(st.targets[0], ast.Tuple) and len(st.targets[0].elts) == 4 and isinstance(st.targets[0].elts[0], ast.Name):
+            v = st.value
+            if (isinstance(v, ast.Call) and (dotted(v.func) or "").endswith("_normalize")) or (isinstance(v, ast.Attribute) and v.attr == "_mpf_"):
+                sign_names.add(st.targets[0].elts[0].id)
+    if not sign_names:
+        raise AnalysisError("mpf2float: unpacking of the mpf tuple (sign, man, exp, bc) not found")
     n55 = 0
     for n in ast.walk(mf):
         if isinstance(n, ast.If) and id(n.test) in rtests:
@@ -222,7 +232,7 @@ def run(repo, tier):
             # negated *integer* zero has no sign
             int_neg_zero = [x for x in ast.walk(v) if isinstance(x, ast.UnaryOp) and isinstance(x.op, ast.USub) and isinstance(x.operand, ast.Constant)
                             and isinstance(x.operand.value, int) and not isinstance(x.operand.value, bool) and x.operand.value == 0]
-            depends_on_sign = any(isinstance(x, ast.Name) and x.id == "sign" for x in ast.walk(v))
+            depends_on_sign = any(isinstance(x, ast.Name) and x.id in sign_names for x in ast.walk(v))
             has_neg = any(isinstance(x, ast.UnaryOp) and isinstance(x.op, ast.USub) for x in ast.walk(v)) or "copysign" in norm_src(v)
             ok = depends_on_sign and has_neg and not int_neg_zero
             what = "underflow (signed zero)" if under else "overflow (signed infinity)"
